@@ -1281,6 +1281,8 @@ SPECIALS = ([{"family": "online", "node": nd, "trained": tr, "how": how} for nd 
              for how in ("deepcopy", "pickle", "nodecopy")]
             + [{"family": "failedcopy", "copy_feedback": cf} for cf in (False, True)]
             + [{"family": "namedesn", "how": how} for how in ("deepcopy", "pickle")]
+            + [{"family": "fbclamp", "forced_on": w} for w in ("copy", "original")]
+            + [{"family": "legacyact"}]
             + [{"family": "concatrefit", "how": how, "names": nm, "widths": w, "fit_before": fbf}
                for how, nm, w, fbf in (("deepcopy", ["in", "in2"], [2, 3], False), ("pickle", ["in", "in2"], [2, 2], True),
                                        ("deepcopy", ["R-1", "R-10"], [2, 2], False), ("deepcopy", ["a", "b"], [2, 3], True))])
@@ -1362,7 +1364,68 @@ def gen_legacy_noise(rng, i):
     return sc
 
 
+def _judge_fbclamp(sc):
+    """Node.copy of a feedback receiver keeps the connection to the SAME sender (documented), but shares nothing else: a feedback
+    value forced on one of the two (with_feedback) is seen by that one only."""
+    rpy()
+    from reservoirpy.nodes import Reservoir, Ridge
+    rng = core.random.Random(sc["seed"])
+    tag = "fbc%s_" % sc["tag"]
+    W = scen.fl(scengen.mat(rng, 3, 3, 2, 2)); Win = scen.fl(scengen.mat(rng, 3, 1, 2, 1)); Wfb = scen.fl(scengen.mat(rng, 3, 1, 2, 1))
+
+    def mk(name, sender):
+        r = Reservoir(3, W=W.copy(), Win=Win.copy(), Wfb=Wfb.copy(), lr=1.0, activation=act_id, fb_activation=act_id, input_bias=False, name=name)
+        r <<= sender
+        r.initialize(np.ones((1, 1))); r.initialize_feedback()
+        return r
+    ro = Ridge(1, name=tag + "ro")
+    ro.initialize(np.ones((1, 3)), np.ones((1, 1)))
+    orig, ref = mk(tag + "o", ro), mk(tag + "ref", ro)
+    cp = orig.copy(name=tag + "c")
+    a, b = (cp, orig) if sc["forced_on"] == "copy" else (orig, cp)
+    x = scen.fl(scengen.rows(rng, 1, 1))
+    with a.with_feedback(np.full((1, 1), 100.0)):
+        got = np.asarray(b(x)).copy()                 # the OTHER one is called while a value is forced on `a`
+    exp = np.asarray(ref(x))
+    if not np.allclose(got, exp, atol=1e-12):
+        return _viol("copy:feedback-clamp-shared-with-original", "a feedback value forced on the %s (with_feedback) was consumed by a call of the %s"
+                     % (sc["forced_on"], "original" if sc["forced_on"] == "copy" else "copy"), sc, exp.tolist(), got.tolist())
+    return None
+
+
+def _judge_legacy_activation(sc):
+    """a legacy ESN built with a non-default reservoir activation, saved and loaded / converted, reproduces the saved model"""
+    rpy()
+    import tempfile
+    from reservoirpy import compat
+    rng = core.random.Random(sc["seed"])
+    N, din = 3, 1
+    W = scen.fl(scengen.mat(rng, N, N, 2, 2)); Win = scen.fl(scengen.mat(rng, N, din + 1, 2, 1))
+    X = scen.fl(scengen.rows(rng, 6, din)); Y = scen.fl(scengen.rows(rng, 6, 1))
+    esn = compat.ESN(lr=0.5, W=W, Win=Win, input_bias=True, ridge=0.125, activation=act_hardtanh_scaled)
+    esn.train([X], [Y])
+    want = np.asarray(esn.run([X])[0][0])
+    with tempfile.TemporaryDirectory() as d:
+        esn.save(d + "/m")
+        got = np.asarray(compat.load(d + "/m").run([X])[0][0])
+        conv = compat.load_compat(d + "/m")
+        got2 = np.asarray(conv.run(X))
+    bad = [w for w, g in (("load", got), ("load_compat", got2)) if g.shape != want.shape or not np.allclose(g, want, atol=1e-9)]
+    if bad:
+        return _viol("legacy:activation-not-saved", "a legacy ESN whose reservoir activation is not the default tanh, saved and then %s: outputs differ "
+                     "from the saved model (save() does not store the activation)" % " / ".join(bad), sc, want.tolist(), got.tolist())
+    return None
+
+
+def act_hardtanh_scaled(x):
+    return np.clip(2.0 * x, -1.0, 1.0)
+
+
 def _judge(sc):
+    if sc["family"] == "fbclamp":
+        return _judge_fbclamp(sc)
+    if sc["family"] == "legacyact":
+        return _judge_legacy_activation(sc)
     if sc["family"] == "legacy_noise":
         return _judge_legacy_noise(sc)
     if sc["family"] == "collision":
